@@ -541,4 +541,8 @@ func TestC14(t *testing.T) {
 		return
 	}
 	runConcC14(t)
+	if t.Failed() {
+		return
+	}
+	runC14Width(t)
 }
